@@ -32,7 +32,7 @@ REQUIRED_COUNTERS = {'plans_run': 1000, 'snapshots_compared': 1000, 'plans_with_
 ASSUMPTIONS = ['fgen of the unit is the "generated code" of the property',
                'identity preservation is checked as: the pre-order list of id() of all nodes (including attached '
                'pragmas and comments) is the same before and after']
-BUDGET_S = {'quick': 300, 'thorough': 3000}
+BUDGET_S = {'quick': 600, 'thorough': 3000}
 CASE_TIMEOUT_S = 180
 PLANS_PER_UNIT = 12
 
@@ -463,7 +463,8 @@ def run_case(idx, rng, tier, ctx):
             except Exception as e:  # pylint: disable=broad-except
                 import traceback
                 tb = traceback.extract_tb(e.__traceback__)
-                where = next((f.name for f in reversed(tb) if '/loki/' in f.filename), '?')
+                where = next((f.name for f in reversed(tb) if ('/loki/ir/' in f.filename or '/loki/analyse/' in
+                                                               f.filename) and not f.name.startswith('<')), '?')
                 has_td = any(isinstance(n, ir.TypeDef) for n in before['nodes'])
                 if isinstance(e, RuntimeError) and where == 'uses_symbols' and has_td:
                     key = 'dataflow:attach-raises-RuntimeError:unit-with-TypeDef'
